@@ -41,19 +41,10 @@ func c15R1(c *Ctx, r *Report) {
 		call, ok := isCallTo(v, fnAtomicLoad)
 		return ok && vpath(call.Call.Args[0]) == path
 	}
-	below := Guard{Name: "running < limit", Truthy: true, Match: func(b ssa.Value) bool {
-		bo, ok := b.(*ssa.BinOp)
-		if !ok {
-			return false
-		}
-		switch bo.Op {
-		case token.LSS:
-			return isLoadOf(bo.X, gMicroTasks) && isLoadOf(bo.Y, "global:modules.microTasksThreshhold")
-		case token.GTR:
-			return isLoadOf(bo.Y, gMicroTasks) && isLoadOf(bo.X, "global:modules.microTasksThreshhold")
-		}
-		return false
-	}}
+	below := relGuards("running < limit",
+		func(v ssa.Value) bool { return isLoadOf(v, gMicroTasks) },
+		func(v ssa.Value) bool { return isLoadOf(v, "global:modules.microTasksThreshhold") },
+		func(running, limit int64) bool { return running < limit })
 	isClose := func(in ssa.Instruction) bool {
 		ci, ok := in.(ssa.CallInstruction)
 		if !ok || calleeName(ci.Common()) != "builtin.close" {
@@ -76,7 +67,7 @@ func c15R1(c *Ctx, r *Report) {
 			k++
 			cons := fmt.Sprintf("%s / grant clearance #%d", name, k)
 			if name == "modules.microTaskScheduler" {
-				c.RequireGuards(r, rule, cons, fn, in, below)
+				c.RequireAny(r, rule, cons, fn, in, "running < limit", below)
 			}
 			// after the grant: a +1 before the next grant, before any blocking select and before return
 			next := ReachInstr(fn, in, func(x ssa.Instruction) bool {
